@@ -49,6 +49,8 @@ AllReturned == \A r \in Requesters : rpc[r] = "done"
 Quiescent == AllReturned /\ upc = "run" /\ ~flag
 \* then the unit is where the last stored target says, and a migration was performed
 Performed == Quiescent => pool = target /\ cbs >= 1
+\* never more callbacks than requests whose flag has been raised (the bound H_Exec calls `cred`)
+CbBound == cbs <= Cardinality({r \in Requesters : rpc[r] = "done"})
 \* ... and quiescence is reachable at all (the flag cannot stay set without the unit noticing): checked as a
 \* state constraint-free invariant: a pending flag with the unit running will be seen at the next point
 =============================================================================
